@@ -58,7 +58,8 @@ def schedules(script, bursts, k):
 def q(name, ops, ln, timeout=600, sample=False, replay=False):
     return Query(name=name, harness="C06_queue.c",
                  defines=["OPS=" + ",".join(map(str, ops)), "LEN=%d" % ln, "WITNESS_DELIVERED=0", "VERIF_POOL_NO_MGR_REF", "UPIPE_VERIF_OOB_QUEUES=2"],
-                 shims=ps.SHIMS, unwind=max(14, len(ops) + 3), unwindset=ps.UW, fp_restrict=True, timeout=timeout, leak=True, replay_witness=replay,
+                 shims=ps.SHIMS, unwind=max(14, len(ops) + 3), unwindset=[u for u in ps.UW if not u.startswith("env_count")] + ["env_count.0:50"], fp_restrict=True, timeout=timeout, leak=True,
+                 replay_witness=replay,
                  sample={"queue length": ln, "schedule": [OPN[o] for o in ops] + ["release both", "run the loops until quiescent"],
                          "symbolic": "payload octets"} if sample else None)
 
